@@ -194,10 +194,7 @@ def run(cx):
     pm = mod(PARSER)
     cx.consulted(pm)
     cx.explanation = (
-        "the inference function is evaluated as a decision procedure on the syntax tree over the finite lattice of type "
-        "labels (bool<int<float, String) for every expression form it distinguishes and compared with Python's typing of the "
-        "same form; the join functions are evaluated over all label subsets; label->C++ mapping, redeclaration, promotion and "
-        "parameter-specialisation paths are checked structurally; per-program inference results are not decided"
+        "the inference function is evaluated as a decision procedure over the finite lattice of type labels (bool<int<float, String) for every expression form and compared with Python's typing; join functions over all label subsets; label->C++ mapping; declared types (globals, locals, hoisted declarations, parameters, return types per call-site specialisation) and re-declaration are decided on a script corpus parsed by partial evaluation, with CPython under sys.settrace as typing oracle; accessor translations typed by clang. Per-program inference for arbitrary scripts is not decided."
     )
     it = lambda: dl.Interp(pm)
     inf = pm.func("_infer_expr_type")
